@@ -50,6 +50,16 @@ def run(ctx):
                                     r.violation(A, "format_project: filter closure returns %s" % short(ret)[:50],
                                                 "the module filter is no longer `input_is_stdin || !should_skip_module(..)`",
                                                 ["%s:%d" % (f2.file, f2.line)])
+                if not has_visit and not has_filter:
+                    # the list is a Vec filled by pushes: follow the elements pushed into it
+                    g0 = c.fn
+                    made = {x.dest[0] for x in d["calls"] if x.name.rsplit("::", 1)[-1] in ("new", "with_capacity") and "Vec" in x.name and not x.dest[1]}
+                    for x in g0.calls():
+                        if x.name.endswith("::push") and "Vec" in x.name and len(x.args) > 1 and x.args[0][0] != "k" and x.args[1][0] != "k":
+                            rd = g0.single_def(x.args[0][1][0])
+                            tgt = rd[2][2][2][0] if rd and rd[1] == "assign" and rd[2][2][0] == "ref" else x.args[0][1][0]
+                            if tgt in made and any(y.name.endswith("::visit_crate") for y in g0.derived_from(x.args[1][1][0])["calls"]):
+                                has_visit = True
                 if has_visit and not has_filter:
                     # loop form: `for (path, module) in visit_crate(..)? { if !stdin && should_skip_module(..) { continue; } files.push(..) }`
                     from common import natural_loops, bool_branches
